@@ -107,7 +107,7 @@ func (obj HashTable) LoadForm() Object {
 		switch k.(type) {
 		case Symbol:
 			form = append(form, List{Symbol("setf"), List{Symbol("gethash"), List{quoteSymbol, k}, tsym}, v})
-		case String, Number, nil:
+		case String, Number, Character, boolean, nil:
 			form = append(form, List{Symbol("setf"), List{Symbol("gethash"), k, tsym}, v})
 		}
 	}
